@@ -1801,10 +1801,23 @@ def _b_sum(I_, a, k):
 
 
 def _b_all(I_, a, k):
+    if isinstance(a[0], SSeq) and not z3.is_int_value(z3.simplify(a[0].length)):
+        # all(f(x) for x in <sequence of symbolic length>): a universally quantified condition
+        seq = a[0]
+        t = z3.Int('t!all%d' % next(I_.st.n))
+        return Sym(z3.ForAll([t], z3.Implies(z3.And(0 <= t, t < seq.length), bterm(_as_bool(I_, seq.elem(t))))))
     for x in I_.iterate(a[0]):
         if not I_.truth(x):
             return False
     return True
+
+
+def _as_bool(I_, v):
+    if isinstance(v, Sym):
+        return v
+    if isinstance(v, bool):
+        return Sym(z3.BoolVal(v))
+    raise Unsupported('non-boolean element under all() over a symbolic sequence: %r' % (v,))
 
 
 def _b_any(I_, a, k):
